@@ -8,6 +8,7 @@ import (
 	"flag"
 	"fmt"
 	"os"
+	"sort"
 	"strings"
 
 	"pgregory.net/rapid"
@@ -128,6 +129,122 @@ func cmdReplayOracle(args []string) {
 			}
 		}
 	}
+	// generators outside the model (reflection-based Make, strings, regexps, floats, nested rejecting
+	// collections): the same replay-after-prune statement on the implementation alone
+	if *only < 0 || *only >= 1000000 {
+		for xi, x := range extraGens() {
+			for j := 0; j < *k**n/40+3; j++ {
+				idx := 1000000 + xi*10000 + j
+				if *only >= 0 && *only != idx {
+					continue
+				}
+				s := (&Rng{s: *seed*7100003 + uint64(idx)}).next()
+				var v1, v2 string
+				e, rec := rapid.VerifRunSeed(nil, s, false, func(t *rapid.T) { v1 = x.draw(t) })
+				stats["extra_runs"]++
+				if e.Kind != "" {
+					continue
+				}
+				pruned := rapid.VerifPrune(rec)
+				if len(pruned.Data) < len(rec.Data) {
+					stats["extra_with_rejected_bits"]++
+				}
+				e2, rec2 := rapid.VerifRunBuf(nil, pruned.Data, false, func(t *rapid.T) { v2 = x.draw(t) })
+				stats["compared"]++
+				what := ""
+				switch {
+				case oresCoq(e) != oresCoq(e2):
+					what = "verdict of the pruned replay differs"
+				case v1 != v2:
+					what = "draws of the pruned replay differ"
+				case wordsCoq(rec2.Data) != wordsCoq(pruned.Data):
+					what = "pruned replay does not consume exactly the pruned recording"
+				}
+				if what != "" {
+					fails = append(fails, replayFailure{idx, x.name + ": " + v1 + " vs " + v2, s, what, oresCoq(e), oresCoq(e2), pruned.Data, *seed, *prof})
+				}
+			}
+		}
+	}
 	out, _ := json.Marshal(map[string]any{"stats": stats, "failures": fails, "samples": samples})
 	fmt.Println(string(out))
+}
+
+type extraGen struct {
+	name string
+	draw func(t *rapid.T) string
+}
+
+type xStruct struct {
+	M map[uint8]int8
+	B map[bool]string
+	S []map[int8]bool
+	P *uint16
+}
+
+func show(v any) string { return fmt.Sprintf("%#v", v) }
+
+func extraGens() []extraGen {
+	gm := rapid.Make[map[uint8]int8]()
+	gb := rapid.Make[map[bool][]byte]()
+	gs := rapid.Make[xStruct]()
+	gstr := rapid.StringOfN(rapid.RuneFrom([]rune{'a', 'é', '世', '😀'}), 2, 5, 9)
+	gre := rapid.StringMatching(`[a-c]{2,4}(x|yz)*\d?`)
+	gf := rapid.Float64Range(-1e3, 1e300)
+	gd := rapid.SliceOfNDistinct(rapid.SliceOfN(rapid.IntRange(0, 1), 0, 2), 2, 4, func(x []int) string { return fmt.Sprint(x) })
+	gmm := rapid.MapOfN(rapid.StringN(0, 1, 1), rapid.Make[map[bool]bool](), 1, 3)
+	gfilt := rapid.Make[map[int8]int8]().Filter(func(m map[int8]int8) bool { return len(m)%2 == 0 })
+	return []extraGen{
+		{"Make[map[uint8]int8]", func(t *rapid.T) string { return show(sortedMap(gm.Draw(t, "v"))) }},
+		{"Make[map[bool][]byte]", func(t *rapid.T) string { return show(sortedMap(gb.Draw(t, "v"))) }},
+		{"Make[struct of maps]", func(t *rapid.T) string {
+			v := gs.Draw(t, "v")
+			p := "nil"
+			if v.P != nil {
+				p = fmt.Sprint(*v.P)
+			}
+			ss := ""
+			for _, m := range v.S {
+				ss += show(sortedMap(m)) + ","
+			}
+			return show(sortedMap(v.M)) + show(sortedMap(v.B)) + ss + p
+		}},
+		{"StringOfN(multi-byte,2,5,9)", func(t *rapid.T) string { return show(gstr.Draw(t, "v")) }},
+		{"StringMatching", func(t *rapid.T) string { return show(gre.Draw(t, "v")) }},
+		{"Float64Range", func(t *rapid.T) string { return fmt.Sprintf("%x", gf.Draw(t, "v")) }},
+		{"SliceOfNDistinct(SliceOfN)", func(t *rapid.T) string { return show(gd.Draw(t, "v")) }},
+		{"MapOfN(StringN, Make[map])", func(t *rapid.T) string {
+			m := gmm.Draw(t, "v")
+			out := ""
+			for _, k := range sortedKeys(m) {
+				out += k + "=" + show(sortedMap(m[k])) + ";"
+			}
+			return out
+		}},
+		{"Make[map].Filter", func(t *rapid.T) string { return show(sortedMap(gfilt.Draw(t, "v"))) }},
+	}
+}
+
+// sortedMap renders a map with sorted keys (map iteration order is random)
+func sortedMap[K comparable, V any](m map[K]V) string {
+	type kv struct{ k, v string }
+	var l []kv
+	for k, v := range m {
+		l = append(l, kv{fmt.Sprintf("%#v", k), fmt.Sprintf("%#v", v)})
+	}
+	sort.Slice(l, func(i, j int) bool { return l[i].k < l[j].k })
+	out := "{"
+	for _, e := range l {
+		out += e.k + ":" + e.v + ","
+	}
+	return out + "}"
+}
+
+func sortedKeys[V any](m map[string]V) []string {
+	var ks []string
+	for k := range m {
+		ks = append(ks, k)
+	}
+	sort.Strings(ks)
+	return ks
 }
